@@ -54,6 +54,8 @@ func runC16(c *Ctx) {
 	c.Rule("C16.O8", "E4", "the dial completion clears the dial timer before it runs the user's callback: a deadline the callback sets must survive the callback's return", 1)
 	c.Rule("C16.O9", "E5,E4", "who may cancel the write deadline: only setDeadline, teardown, and Write/Writev on their exact queue-empty edge; any other function that clears the write timer must do so on an exact queue-empty edge too", 1)
 	c.Rule("C16.O10", "E4", "Upgrade hands the connection over with the right read deadline on both edges of KeepaliveTime > 0: renewed when positive, cleared (the HTTP keep-alive deadline cancelled) otherwise", 1)
+	c.Rule("C16.O11", "E4", "the dial timer is armed only for a connect that is still pending (where Conn.onConnected is installed): a connect that completed at once has no poller completion to clear it, and the timer would close the established connection", 1)
+	c16DialTimerPending(c, "C16.O11")
 	c.Rule("C16.O6", "E5,E4", "keep-alive renewal sites exist and pass time.Now().Add(<engine>.KeepaliveTime)", 7)
 
 	L := c.Locks()
@@ -673,4 +675,54 @@ func (c *Ctx) freshUnpublished(fn *ssa.Function, at ssa.Instruction, obj ssa.Val
 		}
 	}
 	return true
+}
+
+// c16DialTimerPending: the dial timer closes the connection with
+// ErrDialTimeout.  For a pending connect the poller's completion clears it
+// under the connection's mutex; a connect that succeeded at once is reported
+// through the engine's serial queue, arbitrarily later, so a timer armed for it
+// can fire first and close an established connection (whose dial is then
+// reported as a success).  Every arming site must therefore hold the
+// conditions under which the pending callback is installed.
+func c16DialTimerPending(c *Ctx, ob string) {
+	fn := c.Fn(ob, "(*nbio.Engine).DialAsyncTimeout")
+	if fn == nil {
+		return
+	}
+	fi := c.P.Info(fn)
+	key := fnKey(c.P, fn, "dial timer only for a pending connect")
+	var pend []ssa.Instruction
+	for _, st := range c.P.StoresTo(fn, fConnOnConn) {
+		if !ir.IsNilConst(st.Val) {
+			pend = append(pend, st)
+		}
+	}
+	if len(pend) != 1 {
+		c.Unres(ob, key, fmt.Sprintf("%d store(s) of the pending callback, expected 1", len(pend)))
+		return
+	}
+	want := fi.Facts(pend[0])
+	bad := ""
+	nArm := 0
+	for _, cs := range c.P.Calls(fn, func(name string, _ ir.CallSite) bool {
+		return name == "(*nbio.Conn).setDeadline" || name == "(*timer.Timer).AfterFunc" || name == "(*nbio.Conn).SetWriteDeadline" || name == "(*nbio.Conn).SetDeadline"
+	}) {
+		if cs.In.Parent() != fn {
+			continue
+		}
+		nArm++
+		for _, w := range want {
+			wc, wt := ir.StripNot(w.Cond, w.Truth)
+			if !fi.HasFact(cs.In, func(ft ir.Fact) bool {
+				fc, ftr := ir.StripNot(ft.Cond, ft.Truth)
+				return ftr == wt && (fc == wc || c.P.Desc(fc) == c.P.Desc(wc) && c.P.Desc(wc) != "")
+			}) {
+				bad = "the dial timer is armed at " + c.Pos(cs.In) + " also when the connect is not pending (the condition guarding the installation of Conn.onConnected at " + c.Pos(pend[0]) + " does not hold there): a connect that completed at once is reported through the engine's queue, the timer can fire before that and close the established connection with the dial-timeout error while the dial is reported as a success"
+			}
+		}
+	}
+	if nArm == 0 && bad == "" {
+		bad = "no dial timer is armed"
+	}
+	c.Cond(bad == "", ob, key, c.FnPos(fn), fmt.Sprintf("%d arming site(s), each under the %d condition(s) of the pending-callback installation", nArm, len(want)), bad)
 }
